@@ -5,7 +5,7 @@
 From Coq Require Import List NArith ZArith Bool Arith QArith.
 From Leaspy Require Import Base.Atoms Masked.Weighted Masked.Observed Masked.Pipeline
      Masked.WeightedProofs Masked.ClosedProofs Masked.PipelineProofs Masked.Saem Masked.SaemProofs
-     Masked.Source Masked.SourceProofs Masked.SourceTie Masked.SourceExamples.
+     Masked.Source Masked.SourceProofs Masked.SourceTie Masked.NoiseStd Masked.NoiseStdProofs Masked.SourceExamples.
 From LeaspyGen Require Import GenC06.
 Import ListNotations.
 Local Close Scope Q_scope.
@@ -233,3 +233,29 @@ Print Assumptions C06_src_std_sqrt_defined.
 Theorem C06_src_std_nan_not_refused : forall tol, exists v, gen_std tol v = SOk (VSqrtOf v) /\ In NaN (to_flat v).
 Proof. exact gen_std_nan_not_refused. Qed.
 Print Assumptions C06_src_std_nan_not_refused.
+
+(** neg, abs, pow (value transformed, weight kept) and the function returned by factory_weighted_tensor_unary_operator
+    (on a WeightedTensor: f on filled(fill_value), weights kept; on a plain tensor: f) as translated. *)
+Theorem C06_src_unary : tie_unary.
+Proof. exact gen_tie_unary. Qed.
+Print Assumptions C06_src_unary.
+
+(** The noise estimate finally ADOPTED — the variance of either update rule handed to compute_std_from_variance with any
+    tolerance — uses observed entries only: under the hypotheses of C06_noise_observed_only both runs are refused
+    (LeaspyConvergenceError) together or adopt the square root of equal variances ... *)
+Theorem C06_noise_std_observed_only : forall tol y y' model model',
+    wagree y y' ->
+    shape model = shape (value y) -> shape model' = shape model ->
+    (forall m, inr (shape model) m -> observed y m -> at_ model m = at_ model' m) ->
+    ragree std_agree (noise_std_scalar tol y model) (noise_std_scalar tol y' model') /\
+    ragree std_agree (noise_std_diagonal tol y model) (noise_std_diagonal tol y' model').
+Proof. exact noise_std_observed_only. Qed.
+Print Assumptions C06_noise_std_observed_only.
+
+(** ... and the same after burn-in (statistics averaged by the memory phase), for every number of iterations. *)
+Theorem C06_noise_std_observed_only_after_burn_in : forall tol y y' m0 m0' steps steps',
+    wagree y y' -> magree y m0 m0' -> steps_agree y steps steps' ->
+    ragree std_agree (noise_std_scalar_saem tol y m0 steps) (noise_std_scalar_saem tol y' m0' steps') /\
+    ragree std_agree (noise_std_diagonal_saem tol y m0 steps) (noise_std_diagonal_saem tol y' m0' steps').
+Proof. exact noise_std_saem_observed_only. Qed.
+Print Assumptions C06_noise_std_observed_only_after_burn_in.
